@@ -5,6 +5,7 @@ package main
 
 import (
 	"fmt"
+	"os"
 	"go/ast"
 	"go/constant"
 	"go/token"
@@ -309,6 +310,9 @@ func (c *SpecCtx) evalBinary(x *ast.BinaryExpr) *SV {
 		return boolSV(TFalse)
 	}
 	if x.Op == token.EQL || x.Op == token.NEQ {
+		if os.Getenv("GOCV_DEBUG") != "" {
+			fmt.Fprintf(os.Stderr, "EQ %s : %v (%v) vs %v (%v)\n", exprString(x), a.V, a.T, b.V, b.T)
+		}
 		eq := c.svEq(a, b)
 		if x.Op == token.NEQ {
 			eq = Not(eq)
@@ -882,6 +886,9 @@ func (c *SpecCtx) evalCall(x *ast.CallExpr) *SV {
 		return c.evalQuant(id.Name, x)
 	case "zero":
 		t := c.resolveType(x.Args[0])
+		if os.Getenv("GOCV_DEBUG") != "" {
+			fmt.Fprintf(os.Stderr, "ZERO %v -> %v (%T) leaves=%v\n", t, ex.env.resolve(t), ex.env.resolve(t), ex.env.leaves(t))
+		}
 		return &SV{V: ex.zeroVal(t), T: t}
 	case "fresh":
 		// fresh(x): x was allocated by this call
@@ -1213,6 +1220,19 @@ func (c *SpecCtx) applySpecFunc(sf *SpecFunc, recv *SV, args []ast.Expr) *SV {
 		pkg = sp.Pkg
 	}
 	defCtx := &SpecCtx{ex: ex, st: c.st, old: c.old, pkg: pkg, tparms: c.tparms, nbound: c.nbound}
+	if recv != nil && len(sf.RecvTParams) > 0 && recv.T != nil {
+		// the header's type parameter names denote the receiver's type arguments
+		if n, ok := types.Unalias(derefType(ex.env.resolve(recv.T))).(*types.Named); ok && n.TypeArgs() != nil && n.TypeArgs().Len() == len(sf.RecvTParams) {
+			tp := map[string]types.Type{}
+			for k, v := range c.tparms {
+				tp[k] = v
+			}
+			for i, name := range sf.RecvTParams {
+				tp[name] = n.TypeArgs().At(i)
+			}
+			defCtx.tparms = tp
+		}
+	}
 	for i, a := range args {
 		v := c.eval(a)
 		if v.Const != nil && i < len(sf.ParamTys) {
@@ -1323,28 +1343,36 @@ func (c *SpecCtx) applyRec(sf *SpecFunc, defCtx *SpecCtx, names map[string]*SV, 
 func selectPatterns(body *Term, bound *Term) [][]*Term {
 	seen := map[string]bool{}
 	var pats [][]*Term
-	var mentions func(t *Term) bool
-	mentions = func(t *Term) bool {
+	inner := map[string]bool{}
+	var mentions func(t *Term, names map[string]bool) bool
+	mentions = func(t *Term, names map[string]bool) bool {
 		if t.IntVal != nil {
 			return false
 		}
 		if len(t.Args) == 0 {
-			return t.Op == bound.Op
+			return names[t.Op]
 		}
 		for _, a := range t.Args {
-			if mentions(a) {
+			if mentions(a, names) {
 				return true
 			}
 		}
 		return false
 	}
+	self := map[string]bool{bound.Op: true}
 	var walk func(t *Term)
 	walk = func(t *Term) {
-		if t.Op == "forall" || t.Op == "exists" {
-			// do not take triggers from nested quantifiers
+		if t.IntVal != nil {
 			return
 		}
-		if t.Op == "select" && len(t.Args) == 2 && len(t.Args[1].Args) == 0 && t.Args[1].Op == bound.Op && !mentions(t.Args[0]) {
+		if t.Op == "forall" || t.Op == "exists" {
+			for _, b := range t.Bound {
+				inner[b.Op] = true
+			}
+			walk(t.Args[0])
+			return
+		}
+		if t.Op == "select" && len(t.Args) == 2 && len(t.Args[1].Args) == 0 && t.Args[1].Op == bound.Op && !mentions(t.Args[0], self) && !mentions(t.Args[0], inner) {
 			k := t.String()
 			if !seen[k] {
 				seen[k] = true
@@ -1362,111 +1390,27 @@ func selectPatterns(body *Term, bound *Term) [][]*Term {
 	return pats
 }
 
-// applyTrig applies a spec function as an uninterpreted function of its
-// arguments and adds (once) its definition as an axiom triggered on the
-// application.  The body may depend on its parameters only (slices through
-// their contents, offset and length), not on the rest of the heap.
-func (c *SpecCtx) applyTrig(sf *SpecFunc, defCtx *SpecCtx, names map[string]*SV, recv *SV) *SV {
-	ex := c.ex
-	var args []*Term
-	var bound []*Term
-	bnames := map[string]*SV{}
-	order := append([]string{}, sf.Params...)
-	if recv != nil {
-		rn := sf.RecvName
-		if rn == "" {
-			rn = "self"
-		}
-		order = append([]string{rn}, order...)
-	}
-	nb := 0
-	newB := func(s Sort) *Term {
-		nb++
-		return Sym(fmt.Sprintf("%s!p%d", sanitizeName(sf.Name), nb), s)
-	}
-	for _, n := range order {
-		v := names[n]
-		if v.Const != nil {
-			c.fail("constant argument to triggered spec function %s needs a typed parameter", sf.Name)
-		}
-		if v.V.Sl != nil {
-			et := ex.env.resolve(v.T).Underlying().(*types.Slice).Elem()
-			inner := map[string]*Term{}
-			for _, l := range ex.env.leaves(et) {
-				var a *Term
-				if v.V.Sl.Inner != nil {
-					a = v.V.Sl.Inner[l.Path]
-				} else {
-					a = Select(ex.elemArr(c.st, et, l.Path, l.Sort), v.V.Sl.Arr)
-				}
-				args = append(args, a)
-				b := newB(a.Sort)
-				bound = append(bound, b)
-				inner[l.Path] = b
-			}
-			args = append(args, v.V.Sl.Off, v.V.Sl.Len)
-			bo, bl := newB(v.V.Sl.Off.Sort), newB(v.V.Sl.Len.Sort)
-			bound = append(bound, bo, bl)
-			bnames[n] = &SV{V: &Val{Sl: &SliceV{Arr: IntLit(0), Off: bo, Len: bl, Cap: bl, Inner: inner}}, T: v.T}
-			continue
-		}
-		var bs []*Term
-		ex.flatten(v.T, v.V, "", func(l Leaf, t *Term) {
-			args = append(args, t)
-			b := newB(t.Sort)
-			bound = append(bound, b)
-			bs = append(bs, b)
-		})
-		k := 0
-		bnames[n] = &SV{V: ex.buildVal(v.T, "", func(l Leaf) *Term { k++; return bs[k-1] }), T: v.T}
-	}
-	var ret Sort = SBool
-	var rt types.Type = types.Typ[types.Bool]
-	if sf.RetTy != nil {
-		rt = defCtx.resolveType(sf.RetTy)
-		ret = ex.env.scalarSort(rt)
-	}
-	var sorts []Sort
-	for _, a := range args {
-		sorts = append(sorts, a.Sort)
-	}
-	name := "sf_" + sanitizeName(sf.Name)
-	for _, s := range sorts {
-		name += "_" + sanitizeName(string(s))
-	}
-	ex.env.d.Func(name, ret, sorts...)
-	if !ex.recDefs[name] {
-		ex.recDefs[name] = true
-		ex.specDepth++
-		inner := defCtx.with(bnames)
-		body := inner.eval(sf.Body)
-		ex.specDepth--
-		app := App(name, ret, bound...)
-		bt := inner.term(body, ret)
-		ex.addAxiom(Forall(bound, Eq(app, bt), []*Term{app}))
-	}
-	return &SV{V: scalar(ex.env.d.Apply(name, args...)), T: rt}
-}
-
 // shiftCandidate finds the first OFF such that (select A (+ OFF i)) occurs in
 // body with i the bound variable and OFF free of it.
 func shiftCandidate(body *Term, bound *Term) *Term {
 	var found *Term
-	var mentions func(t *Term) bool
-	mentions = func(t *Term) bool {
+	inner := map[string]bool{}
+	var mentions func(t *Term, names map[string]bool) bool
+	mentions = func(t *Term, names map[string]bool) bool {
 		if t.IntVal != nil {
 			return false
 		}
 		if len(t.Args) == 0 {
-			return t.Op == bound.Op
+			return names[t.Op]
 		}
 		for _, a := range t.Args {
-			if mentions(a) {
+			if mentions(a, names) {
 				return true
 			}
 		}
 		return false
 	}
+	self := map[string]bool{bound.Op: true}
 	var walk func(t *Term)
 	walk = func(t *Term) {
 		if found != nil || t.IntVal != nil {
@@ -1474,12 +1418,17 @@ func shiftCandidate(body *Term, bound *Term) *Term {
 		}
 		if t.Op == "select" && len(t.Args) == 2 {
 			ix := t.Args[1]
-			if (ix.Op == "+" || ix.Op == "bvadd") && len(ix.Args) == 2 && len(ix.Args[1].Args) == 0 && ix.Args[1].Op == bound.Op && ix.Args[1].IntVal == nil && !mentions(ix.Args[0]) && !mentions(t.Args[0]) {
+			if (ix.Op == "+" || ix.Op == "bvadd") && len(ix.Args) == 2 && len(ix.Args[1].Args) == 0 && ix.Args[1].Op == bound.Op && ix.Args[1].IntVal == nil &&
+				!mentions(ix.Args[0], self) && !mentions(t.Args[0], self) && !mentions(ix.Args[0], inner) && !mentions(t.Args[0], inner) {
 				found = ix.Args[0]
 				return
 			}
 		}
 		if t.Op == "forall" || t.Op == "exists" {
+			for _, b := range t.Bound {
+				inner[b.Op] = true
+			}
+			walk(t.Args[0])
 			return
 		}
 		for _, a := range t.Args {
@@ -1618,3 +1567,90 @@ func (c *SpecCtx) loadGhostGlobal(gg *GhostGlobal) *SV {
 	})
 	return &SV{V: v, T: t}
 }
+
+// applyTrig applies a spec function as an uninterpreted function of its
+// arguments and adds (once) its definition as an axiom triggered on the
+// application.  The body may depend on its parameters only (slices through
+// their contents, offset and length), not on the rest of the heap.
+func (c *SpecCtx) applyTrig(sf *SpecFunc, defCtx *SpecCtx, names map[string]*SV, recv *SV) *SV {
+	ex := c.ex
+	var args []*Term
+	var bound []*Term
+	bnames := map[string]*SV{}
+	order := append([]string{}, sf.Params...)
+	if recv != nil {
+		rn := sf.RecvName
+		if rn == "" {
+			rn = "self"
+		}
+		order = append([]string{rn}, order...)
+	}
+	nb := 0
+	newB := func(s Sort) *Term {
+		nb++
+		return Sym(fmt.Sprintf("%s!p%d", sanitizeName(sf.Name), nb), s)
+	}
+	for _, n := range order {
+		v := names[n]
+		if v.Const != nil {
+			c.fail("constant argument to triggered spec function %s needs a typed parameter", sf.Name)
+		}
+		if v.V.Sl != nil {
+			et := ex.env.resolve(v.T).Underlying().(*types.Slice).Elem()
+			inner := map[string]*Term{}
+			for _, l := range ex.env.leaves(et) {
+				var a *Term
+				if v.V.Sl.Inner != nil {
+					a = v.V.Sl.Inner[l.Path]
+				} else {
+					a = Select(ex.elemArr(c.st, et, l.Path, l.Sort), v.V.Sl.Arr)
+				}
+				args = append(args, a)
+				b := newB(a.Sort)
+				bound = append(bound, b)
+				inner[l.Path] = b
+			}
+			args = append(args, v.V.Sl.Off, v.V.Sl.Len)
+			bo, bl := newB(v.V.Sl.Off.Sort), newB(v.V.Sl.Len.Sort)
+			bound = append(bound, bo, bl)
+			bnames[n] = &SV{V: &Val{Sl: &SliceV{Arr: IntLit(0), Off: bo, Len: bl, Cap: bl, Inner: inner}}, T: v.T}
+			continue
+		}
+		var bs []*Term
+		ex.flatten(v.T, v.V, "", func(l Leaf, t *Term) {
+			args = append(args, t)
+			b := newB(t.Sort)
+			bound = append(bound, b)
+			bs = append(bs, b)
+		})
+		k := 0
+		bnames[n] = &SV{V: ex.buildVal(v.T, "", func(l Leaf) *Term { k++; return bs[k-1] }), T: v.T}
+	}
+	var ret Sort = SBool
+	var rt types.Type = types.Typ[types.Bool]
+	if sf.RetTy != nil {
+		rt = defCtx.resolveType(sf.RetTy)
+		ret = ex.env.scalarSort(rt)
+	}
+	var sorts []Sort
+	for _, a := range args {
+		sorts = append(sorts, a.Sort)
+	}
+	name := "sf_" + sanitizeName(sf.Name)
+	for _, s := range sorts {
+		name += "_" + sanitizeName(string(s))
+	}
+	ex.env.d.Func(name, ret, sorts...)
+	if !ex.recDefs[name] {
+		ex.recDefs[name] = true
+		ex.specDepth++
+		inner := defCtx.with(bnames)
+		body := inner.eval(sf.Body)
+		ex.specDepth--
+		app := App(name, ret, bound...)
+		bt := inner.term(body, ret)
+		ex.addAxiom(Forall(bound, Eq(app, bt), []*Term{app}))
+	}
+	return &SV{V: scalar(ex.env.d.Apply(name, args...)), T: rt}
+}
+
